@@ -90,6 +90,7 @@ def monitor_sched(case_lines, out_lines, S, F):
     inc_total = 0
     rel_ext, rel_acc = {}, {}
     last_ld, writes, aba_inserts = {}, {}, []   # (tid, loc) -> index of the thread's last load; loc -> [(index, tid)]
+    aba_unlinks = []
     rewound_ = any(x and x[0] in ("rewind", "clear") for ops_ in progs.values() for x in ops_) or any(x and x[0] in ("rewind", "clear") for x in pre_ops)
     di0 = None
     try:
@@ -145,6 +146,13 @@ def monitor_sched(case_lines, out_lines, S, F):
                     since = last_ld.get((tid, loc_), -1)
                     if any(i_ > since and t_ != tid for (i_, t_) in writes.get(loc_, [])):
                         aba_inserts.append((tid, loc_, sn_))
+                # ... and an UNLINK CAS of a removal (alloc_slow_path_optimistic#3 / _pessimistic#1 / discard_freelist_in#3) that
+                # succeeds on a predecessor word other threads rewrote in between: the remover takes a node it marked while
+                # that node was not (or no longer) where it believes, and publishes a stale `next`
+                if o.get("k") == "cas" and sn_ in ("alloc_slow_path_optimistic#3", "alloc_slow_path_pessimistic#1", "discard_freelist_in#3"):
+                    since = last_ld.get((tid, loc_), -1)
+                    if any(i_ > since and t_ != tid for (i_, t_) in writes.get(loc_, [])):
+                        aba_unlinks.append((tid, loc_, sn_))
                 writes.setdefault(loc_, []).append((ev_seen, tid))
             # C20: discarded() never decreases (no clear in these programs) ...
             if o.get("loc") == "disc" and o.get("ok") == "1" and o.get("k") != "ld":
@@ -255,6 +263,12 @@ def monitor_sched(case_lines, out_lines, S, F):
                     else:
                         V.append(("C06", f"crash-after-last:{r_.split(':')[0]}", f"crash point #{o.get('k')} (after the last step): recovery {r_}"))
                     crash_pending = None
+    if aba_unlinks and V:
+        # everything that goes wrong in a history containing an ABA unlink is attributed to it (one signature: known finding F18)
+        t_, l_, s_ = aba_unlinks[0]
+        why = (f" [this history contains an ABA unlink: thread {t_}'s unlink CAS at {s_} on {l_} succeeded although other threads had rewritten that word"
+               f" (to another value and back) since the thread read it; it removed a node it had marked while the node was in flight and published a stale next pointer]")
+        V = [(p_, "aba-unlink", m_ + why) for (p_, sg_, m_) in V if not sg_.startswith("crash-")] + [v_ for v_ in V if v_[1].startswith("crash-")]
     return V
 
 def hb_races(out_path):
